@@ -73,6 +73,14 @@ def main():
                 "key": f"exc-{case.get('i')}",
                 "nontrivial": False,
             }
+        from vmon import probes
+
+        if probes.MUTATIONS:  # argument-write sanitizer (probes.py): a probed callee wrote into an operand of the harness
+            m = probes.MUTATIONS[0]
+            r.setdefault("viol", []).append({"mechanism": "callee-wrote-into-its-argument", "msg": f"{m['callee']} changed the contents of a NumPy array it was handed as an argument (shape {m['shape']}, {m['dtype']}); {len(probes.MUTATIONS)} such writes in this case", "witness": {"writes": probes.MUTATIONS[:5]}})
+            if r.get("status") == "held":
+                r["status"] = "violated"
+            del probes.MUTATIONS[:]
         r["i"] = case["i"]
         r.setdefault("evals", 1)
         r["t"] = round(time.time() - t0, 3)
